@@ -13,11 +13,11 @@
 (* prints one REPLAY line per finished run (input, options, expected       *)
 (* result): those behaviours are replayed against the real crate.          *)
 (***************************************************************************)
-EXTENDS Decoder, Json, TLC
+EXTENDS Decoder, Encoder, Json, TLC
 
 CONSTANT Family
 
-VARIABLE st
+VARIABLES st, trail      \* trail: the program counters visited so far (for coverage of the export)
 
 ---------------------------------------------------------------------------
 \* building blocks of the grammars
@@ -135,12 +135,25 @@ DataInputs ==
         msg == Be16(w) \o (IF lenSel # "none" THEN Be16(len) ELSE << >>) \o Be16(id) \o Be16(id)
                  \o (IF s = 1 THEN NsNr ELSE << >>)
                  \o (IF offSel # "none" THEN Be16(osize) ELSE << >>)
-                 \o [i \in 1..nData |-> 160 + i] \o trail
+                 \o [i \in 1..nData |-> 160 + i] \o trailing
     IN InitMessage(msg, StrictOpts, 0)
     : id \in {0, 65535}, s \in {0, 1}, p \in {0, 1},
       lenSel \in {"none", "zero", "hdrm1", "hdr", "hdrp1", "hdrposz", "total", "totalp1", "totalp", "max"},
       offSel \in {"none", "zero", "one", "availm1", "avail", "availp1", "max"},
-      nData \in {1, 2, 5}, trail \in {<< >>, <<7, 7, 7>>} }
+      nData \in {1, 2, 5}, trailing \in {<< >>, <<7, 7, 7>>} }
+
+\* flag words for C14: a tail consistent with the L/S/O bits follows, so that only the
+\* version nibble, the reserved bits and (control) P/O decide
+FlagTail(w) ==
+  IF FlagT(w) THEN Be16(20) \o Ids \o NsNr \o RecMT
+  ELSE LET dataLen == 2 + 2 * B(FlagL(w)) + 4 + 4 * B(FlagS(w)) + 2 * B(FlagO(w)) + 2 IN
+       (IF FlagL(w) THEN Be16(dataLen) ELSE << >>) \o Ids \o (IF FlagS(w) THEN NsNr ELSE << >>)
+         \o (IF FlagO(w) THEN <<0, 0>> ELSE << >>) \o <<170, 187>>
+NoOpts == [res |-> FALSE, ver |-> FALSE, unu |-> FALSE]
+FlagWordsQuick ==
+  { FlagWord(t, l, s, o, p, ver, resv) : t \in {0, 1}, l \in {0, 1}, s \in {0, 1}, o \in {0, 1}, p \in {0, 1},
+      ver \in {0, 1, 2, 3, 15}, resv \in {0, 1, 2, 4, 8, 1024, 2048, 8192, 11279} }
+FlagInputs(W) == { InitMessage(Be16(w) \o FlagTail(w), NoOpts, 0) : w \in W }
 
 Inputs ==
   CASE Family = "framing" -> FramingInputs
@@ -150,37 +163,39 @@ Inputs ==
     [] Family = "loop3"   -> LoopInputs(3)
     [] Family = "loop4"   -> LoopInputs(4)
     [] Family = "data"    -> DataInputs
+    [] Family = "flagsq"  -> FlagInputs(FlagWordsQuick)
+    [] Family = "flagsall" -> FlagInputs(0..65535)
     [] Family = "all"     -> FramingInputs \cup CtlLenInputs \cup AvpRecInputs \cup KindInputs
                                \cup LoopInputs(3) \cup DataInputs
 
 ---------------------------------------------------------------------------
-Init == st \in Inputs
+Init == st \in Inputs /\ trail = << >>
 
-Flags       == st.pc = "flags" /\ st' = Step(st)
-Version     == st.pc = "version" /\ st' = Step(st)
-Reserved    == st.pc = "reserved" /\ st' = Step(st)
-Dispatch    == st.pc = "dispatch" /\ st' = Step(st)
-CtlUnused   == st.pc = "c_unused" /\ st' = Step(st)
-CtlBits     == st.pc = "c_bits" /\ st' = Step(st)
-CtlHeader   == st.pc = "c_hdr" /\ st' = Step(st)
-CtlLength   == st.pc = "c_len" /\ st' = Step(st)
-CtlCarve    == st.pc = "c_carve" /\ st' = Step(st)
-CtlFirst    == st.pc = "c_first" /\ st' = Step(st)
-CtlCollect  == st.pc = "c_collect" /\ st' = Step(st)
-AvpHeader   == st.pc = "a_hdr" /\ st' = Step(st)
-AvpLength   == st.pc = "a_len" /\ st' = Step(st)
-AvpVendor   == st.pc = "a_vendor" /\ st' = Step(st)
-AvpHidden   == st.pc = "a_hidden" /\ st' = Step(st)
-AvpType     == st.pc = "a_type" /\ st' = Step(st)
-AvpMin      == st.pc = "a_min" /\ st' = Step(st)
-AvpField    == st.pc = "a_field" /\ st' = Step(st)
-DataMin     == st.pc = "d_min" /\ st' = Step(st)
-DataFields  == st.pc = "d_fields" /\ st' = Step(st)
-DataOffset  == st.pc = "d_offset" /\ st' = Step(st)
-DataSkip    == st.pc = "d_skip" /\ st' = Step(st)
-DataExtent  == st.pc = "d_extent" /\ st' = Step(st)
-DataPayload == st.pc = "d_payload" /\ st' = Step(st)
-GreedyDone  == st.pc = "g_done" /\ st' = Step(st)
+Flags       == st.pc = "flags" /\ st' = Step(st) /\ trail' = Append(trail, st.pc)
+Version     == st.pc = "version" /\ st' = Step(st) /\ trail' = Append(trail, st.pc)
+Reserved    == st.pc = "reserved" /\ st' = Step(st) /\ trail' = Append(trail, st.pc)
+Dispatch    == st.pc = "dispatch" /\ st' = Step(st) /\ trail' = Append(trail, st.pc)
+CtlUnused   == st.pc = "c_unused" /\ st' = Step(st) /\ trail' = Append(trail, st.pc)
+CtlBits     == st.pc = "c_bits" /\ st' = Step(st) /\ trail' = Append(trail, st.pc)
+CtlHeader   == st.pc = "c_hdr" /\ st' = Step(st) /\ trail' = Append(trail, st.pc)
+CtlLength   == st.pc = "c_len" /\ st' = Step(st) /\ trail' = Append(trail, st.pc)
+CtlCarve    == st.pc = "c_carve" /\ st' = Step(st) /\ trail' = Append(trail, st.pc)
+CtlFirst    == st.pc = "c_first" /\ st' = Step(st) /\ trail' = Append(trail, st.pc)
+CtlCollect  == st.pc = "c_collect" /\ st' = Step(st) /\ trail' = Append(trail, st.pc)
+AvpHeader   == st.pc = "a_hdr" /\ st' = Step(st) /\ trail' = Append(trail, st.pc)
+AvpLength   == st.pc = "a_len" /\ st' = Step(st) /\ trail' = Append(trail, st.pc)
+AvpVendor   == st.pc = "a_vendor" /\ st' = Step(st) /\ trail' = Append(trail, st.pc)
+AvpHidden   == st.pc = "a_hidden" /\ st' = Step(st) /\ trail' = Append(trail, st.pc)
+AvpType     == st.pc = "a_type" /\ st' = Step(st) /\ trail' = Append(trail, st.pc)
+AvpMin      == st.pc = "a_min" /\ st' = Step(st) /\ trail' = Append(trail, st.pc)
+AvpField    == st.pc = "a_field" /\ st' = Step(st) /\ trail' = Append(trail, st.pc)
+DataMin     == st.pc = "d_min" /\ st' = Step(st) /\ trail' = Append(trail, st.pc)
+DataFields  == st.pc = "d_fields" /\ st' = Step(st) /\ trail' = Append(trail, st.pc)
+DataOffset  == st.pc = "d_offset" /\ st' = Step(st) /\ trail' = Append(trail, st.pc)
+DataSkip    == st.pc = "d_skip" /\ st' = Step(st) /\ trail' = Append(trail, st.pc)
+DataExtent  == st.pc = "d_extent" /\ st' = Step(st) /\ trail' = Append(trail, st.pc)
+DataPayload == st.pc = "d_payload" /\ st' = Step(st) /\ trail' = Append(trail, st.pc)
+GreedyDone  == st.pc = "g_done" /\ st' = Step(st) /\ trail' = Append(trail, st.pc)
 
 Next ==
   \/ Flags \/ Version \/ Reserved \/ Dispatch
@@ -189,7 +204,8 @@ Next ==
   \/ DataMin \/ DataFields \/ DataOffset \/ DataSkip \/ DataExtent \/ DataPayload
   \/ GreedyDone
 
-Spec == Init /\ [][Next]_st /\ WF_st(Next)
+vars == <<st, trail>>
+Spec == Init /\ [][Next]_vars /\ WF_vars(Next)
 
 ---------------------------------------------------------------------------
 \* safety, checked in every state
@@ -198,17 +214,53 @@ Safe == StateOk(st)
 TypeOk == st.pc \in PcValues
 
 \* the AVP loop makes progress: the region shrinks by at least 6 octets per record
-LoopProgress == [][(st.pc = "a_hdr" /\ st'.pc = "a_len") => Variant(st') <= Variant(st) - 6]_st
+LoopProgress == [][(st.pc = "a_hdr" /\ st'.pc = "a_len") => Variant(st') <= Variant(st) - 6]_vars
 \* the position never moves backwards
-Monotone == [][st'.pos >= st.pos /\ st'.apos >= st.apos]_st
+Monotone == [][st'.pos >= st.pos /\ st'.apos >= st.apos]_vars
 
 \* liveness: every run terminates
 Terminates == <>(st.pc = "done")
+
+\* C14 on the specification, evaluated once per input (in its initial state):
+\* options only restrict; each check looks at exactly its bits; the default is version only
+Weaker(a, b) == (a.res => b.res) /\ (a.ver => b.ver) /\ (a.unu => b.unu)
+OptionsOk ==
+  (Family \in {"flagsq", "flagsall", "framing"} /\ st.pc = "flags" /\ st.pos = 0 /\ Len(st.in) >= 2) =>
+    LET in == st.in
+        w == U16At(in, 0)
+        R == [o \in OptSets |-> DecodeMessage(in, o).res]
+        none == R[NoOpts]
+        only(r, v, u) == R[[res |-> r, ver |-> v, unu |-> u]]
+    IN /\ \A a, b \in OptSets : (Weaker(a, b) /\ R[b].t = "ok") => (R[a].t = "ok" /\ R[a].v = R[b].v)
+       /\ (none.t = "err") => \A o \in OptSets : R[o].t = "err"
+       /\ (none.t = "ok") =>
+            /\ (only(FALSE, TRUE, FALSE).t = "ok") <=> (FlagVersion(w) = 2)
+            /\ (only(TRUE, FALSE, FALSE).t = "ok") <=> FlagReservedOk(w)
+            /\ (only(FALSE, FALSE, TRUE).t = "ok") <=> ~(FlagT(w) /\ (FlagP(w) \/ FlagO(w)))
+       /\ DefaultOpts = [res |-> FALSE, ver |-> TRUE, unu |-> FALSE]
+
+\* C10 on the specification: an accepted control message, or data message without offset field,
+\* re-encodes to octets that decode (strictly) to the same value up to the control Length, and
+\* encoding that value again reproduces the octets
+Normalises ==
+  (st.pc = "done" /\ st.mode = "msg" /\ st.res.t = "ok" /\ ~(st.res.v.k = "Data" /\ FlagO(st.flags))) =>
+    LET e1 == EncodeMessage(st.res.v)
+        d2 == DecodeMessage(e1.buf, StrictOpts)
+    IN /\ ~e1.panic
+       /\ d2.res.t = "ok"
+       /\ (IF st.res.v.k = "Control" THEN d2.res.v = [st.res.v EXCEPT !.length = Len(e1.buf)] ELSE d2.res.v = st.res.v)
+       /\ EncodeMessage(d2.res.v).buf = e1.buf
+
+\* C08 on the specification: octets after the declared end never change the result
+SuffixIndependent ==
+  (st.pc = "done" /\ st.mode = "msg" /\ st.res.t = "ok" /\ (st.res.v.k = "Control" \/ st.res.v.length # << >>)) =>
+    \A sfx \in { <<0>>, <<255, 255, 255>>, CtlExact(RecMT) } :
+      LET d == DecodeMessage(st.in \o sfx, st.opts) IN d.res = st.res /\ d.rem = (st.lim - st.pos) + Len(sfx)
 
 \* one line per finished behaviour, replayed against the implementation
 Export ==
   st.pc = "done" =>
     PrintT(<<"REPLAY", ToJson([mode |-> st.mode, in |-> st.in,
                                opts |-> <<st.opts.res, st.opts.ver, st.opts.unu>>,
-                               t |-> st.ptype, res |-> st.res.t])>>)
+                               t |-> st.ptype, res |-> st.res.t, path |-> trail])>>)
 =============================================================================
